@@ -194,6 +194,10 @@ def r_gather_complete(ctx: Ctx, rule: str, funcs=("gather_and_close",)):
     for name in funcs:
         for f in ctx.pool_funcs(name):
             g = ctx.an.cfg(f)
+            # a gather(...) whose result is never awaited waits for nothing
+            for c in ctx.distinct_sites(ctx.nodes(f, lambda n: ctx.is_ext_call(n, *GATHER))):
+                awaited = any(m.op == "await" and any(x_ is c.ast for x_ in ctx.vals.alts(m.func, m.ast.value)) for m in g.nodes if m.pred)
+                rep.ob(rule, "the gather is awaited (an un-awaited gather(...) waits for nothing)", awaited, node=c)
             for x in gathers(ctx, f):
                 flds = gather_fields(ctx, f, x)
                 re_ = gather_re(ctx, f, x)
